@@ -658,7 +658,91 @@ fn c16(st: &mut Stats, _max: u32) -> Res {
 
 // ------------------------------------------------------------------------------------------------
 // C17: builders lossless / order preserving; PhantomData erased; docs gating
+
+// every order of the field / variant builder calls yields the same field / variant (no call clobbers what another one set)
+macro_rules! bcall {
+    ($f:ident name) => { $f.name("n") };
+    ($f:ident ty) => { $f.ty::<Vec<u8>>() };
+    ($f:ident type_name) => { $f.type_name("Vec<u8>") };
+    ($f:ident docs_always) => { $f.docs_always(&["d1", "d2"]) };
+    ($f:ident index) => { $f.index(77) };
+    ($f:ident fields) => { $f.fields(Fields::unnamed().field(|f| f.ty::<u8>())) };
+    ($f:ident discriminant) => { $f.discriminant(5) };
+}
+macro_rules! order_case {
+    ($st:ident, [$($m:ident),*]) => {{
+        $st.cases += 1;
+        $st.nontrivial += 1;
+        let c = Fields::named().field(|f| { $( let f = bcall!(f $m); )* f });
+        let got = Type::builder().path(Path::new("O", "m")).composite(c);
+        let want = Type::new(Path::from_segments(vec!["m", "O"]).unwrap(), vec![], TypeDefComposite::new(vec![Field::new(Some("n"), meta_type::<Vec<u8>>(), Some("Vec<u8>"), vec!["d1", "d2"])]), vec![]);
+        ensure!(got == want, "field builder calls in order {} produced {:?}, expected {:?}", stringify!($($m),*), got, want);
+    }};
+}
+macro_rules! vorder_case {
+    ($st:ident, [$($m:ident),*]) => {{
+        $st.cases += 1;
+        $st.nontrivial += 1;
+        let vs = Variants::new().variant("V", |f| { $( let f = bcall!(f $m); )* f });
+        let got = Type::builder().path(Path::new("O", "m")).variant(vs);
+        let want = Type::new(Path::from_segments(vec!["m", "O"]).unwrap(), vec![], TypeDefVariant::new(vec![Variant::new("V", vec![Field::new(None, meta_type::<u8>(), None, vec![])], 77, vec!["d1", "d2"])]), vec![]);
+        ensure!(got == want, "variant builder calls in order {} produced {:?}, expected {:?}", stringify!($($m),*), got, want);
+    }};
+}
+fn c17_orders(st: &mut Stats) -> Res {
+    order_case!(st, [name, ty, type_name, docs_always]);
+    order_case!(st, [name, ty, docs_always, type_name]);
+    order_case!(st, [name, type_name, ty, docs_always]);
+    order_case!(st, [name, type_name, docs_always, ty]);
+    order_case!(st, [name, docs_always, ty, type_name]);
+    order_case!(st, [name, docs_always, type_name, ty]);
+    order_case!(st, [ty, name, type_name, docs_always]);
+    order_case!(st, [ty, name, docs_always, type_name]);
+    order_case!(st, [ty, type_name, name, docs_always]);
+    order_case!(st, [ty, type_name, docs_always, name]);
+    order_case!(st, [ty, docs_always, name, type_name]);
+    order_case!(st, [ty, docs_always, type_name, name]);
+    order_case!(st, [type_name, name, ty, docs_always]);
+    order_case!(st, [type_name, name, docs_always, ty]);
+    order_case!(st, [type_name, ty, name, docs_always]);
+    order_case!(st, [type_name, ty, docs_always, name]);
+    order_case!(st, [type_name, docs_always, name, ty]);
+    order_case!(st, [type_name, docs_always, ty, name]);
+    order_case!(st, [docs_always, name, ty, type_name]);
+    order_case!(st, [docs_always, name, type_name, ty]);
+    order_case!(st, [docs_always, ty, name, type_name]);
+    order_case!(st, [docs_always, ty, type_name, name]);
+    order_case!(st, [docs_always, type_name, name, ty]);
+    order_case!(st, [docs_always, type_name, ty, name]);
+    vorder_case!(st, [index, fields, docs_always, discriminant]);
+    vorder_case!(st, [index, fields, discriminant, docs_always]);
+    vorder_case!(st, [index, docs_always, fields, discriminant]);
+    vorder_case!(st, [index, docs_always, discriminant, fields]);
+    vorder_case!(st, [index, discriminant, fields, docs_always]);
+    vorder_case!(st, [index, discriminant, docs_always, fields]);
+    vorder_case!(st, [fields, index, docs_always, discriminant]);
+    vorder_case!(st, [fields, index, discriminant, docs_always]);
+    vorder_case!(st, [fields, docs_always, index, discriminant]);
+    vorder_case!(st, [fields, docs_always, discriminant, index]);
+    vorder_case!(st, [fields, discriminant, index, docs_always]);
+    vorder_case!(st, [fields, discriminant, docs_always, index]);
+    vorder_case!(st, [docs_always, index, fields, discriminant]);
+    vorder_case!(st, [docs_always, index, discriminant, fields]);
+    vorder_case!(st, [docs_always, fields, index, discriminant]);
+    vorder_case!(st, [docs_always, fields, discriminant, index]);
+    vorder_case!(st, [docs_always, discriminant, index, fields]);
+    vorder_case!(st, [docs_always, discriminant, fields, index]);
+    vorder_case!(st, [discriminant, index, fields, docs_always]);
+    vorder_case!(st, [discriminant, index, docs_always, fields]);
+    vorder_case!(st, [discriminant, fields, index, docs_always]);
+    vorder_case!(st, [discriminant, fields, docs_always, index]);
+    vorder_case!(st, [discriminant, docs_always, index, fields]);
+    vorder_case!(st, [discriminant, docs_always, fields, index]);
+    Ok(())
+}
+
 fn c17(st: &mut Stats, _max: u32) -> Res {
+    c17_orders(st)?;
     let docs_on = cfg!(feature = "docs");
     // field kinds: 0 = u8 named, 1 = PhantomData<u8>, 2 = Vec<u8> with type name + gated docs, 3 = bool with always-docs
     for a in 0..4 {
